@@ -290,6 +290,9 @@ pub struct Receiver {
     tx: mpsc::Sender<PortEvt>,
     rx: mpsc::UnboundedReceiver<PortReceiveMsg>,
     receiving: Receiving,
+    /// The start of a new message has been stashed by recv_chunk when it reported the
+    /// cancellation of the previous message.
+    restarted: bool,
     credits: ChannelCreditReturner,
     closed: bool,
     finished: bool,
@@ -333,6 +336,7 @@ impl Receiver {
             tx,
             rx,
             receiving: Receiving::Nothing,
+            restarted: false,
             credits,
             closed: false,
             finished: false,
@@ -404,6 +408,8 @@ impl Receiver {
     ///
     /// This is unlimited in size.
     pub async fn recv_chunk(&mut self) -> Result<Option<Bytes>, RecvChunkError> {
+        self.restarted = false;
+
         if self.finished {
             return Ok(None);
         }
@@ -434,6 +440,7 @@ impl Receiver {
                             (Receiving::Chunks { .. }, true) => {
                                 self.receiving =
                                     Receiving::Chunks { chunks: vec![data.buf].into(), completed: data.last };
+                                self.restarted = true;
                                 return Err(RecvChunkError::Cancelled);
                             }
                             // Either continuation or start of transmission.
@@ -477,6 +484,12 @@ impl Receiver {
     pub async fn recv_any(&mut self) -> Result<Option<Received>, RecvError> {
         if self.finished {
             return Ok(None);
+        }
+
+        // The message following a cancelled one has already been started by recv_chunk.
+        if self.restarted {
+            self.restarted = false;
+            return Ok(Some(Received::Chunks));
         }
 
         loop {
